@@ -221,7 +221,7 @@ fn track(i: u32, ts: u32) -> MTrack {
 
 /// family (a): chunk k's offset = 2^32 + d
 pub fn family_a() -> impl Strategy<Value = Case> {
-    (0u32..5, -3i64..=3, 0usize..4, prop::collection::vec(1u32..40, 5), any::<bool>()).prop_map(|(kind, d, k, sizes, two)| {
+    (0u32..5, -3i64..=3, 0usize..4, prop::collection::vec(prop_oneof![1 => Just(0u32), 4 => 1u32..40], 5), any::<bool>()).prop_map(|(kind, d, k, sizes, two)| {
         // one sample per chunk: duration = timescale
         let ts = 10u32;
         let mut tracks = vec![track(kind, ts)];
